@@ -54,3 +54,8 @@ Qed.
 (* --- complex_center_crop: start index = floor of half the size difference; box lies inside the data --- *)
 Lemma ccc_spec n m : 0 < m <= n -> ccc_start n m = (n - m) / 2 /\ ccc_size n m = m /\ 0 <= ccc_start n m /\ ccc_start n m + ccc_size n m <= n.
 Proof. cbv beta zeta delta [ccc_start ccc_size]. intros. lia. Qed.
+
+(* the guard of complex_center_crop (every start index non-negative) rejects exactly the crops that do not fit: the
+   floor of a negative half difference is negative, also for a difference of -1 *)
+Lemma ccc_guard_spec na nb ma mb : ccc_raises na nb ma mb = false <-> (ma <= na /\ mb <= nb).
+Proof. cbv beta zeta delta [ccc_raises]. lia. Qed.
